@@ -329,6 +329,9 @@ def tree_structure(ctx):
     ctx.require(len(lp) == 1, '_register_fuzzy_type: loop not found')
     ok = isinstance(lp[0].iter, ast.Call) and is_name(lp[0].iter.func, 'list') and norm(lp[0].iter.args[0]) == '_type_tree.items()'
     ctx.ob(ok, fu, 'insertion iterates a snapshot of the siblings (the tree is modified inside): %s' % norm(lp[0].iter))
+    jumps = [n for n in ast.walk(lp[0]) if isinstance(n, (ast.Break, ast.Continue, ast.Return))]
+    ctx.ob(not jumps, fu, 'every sibling is examined (no break / continue / return in the insertion loop)',
+           '' if not jumps else 'a type with several registered bases would be attached under the first one only: %s' % [norm(j) for j in jumps])
     tests = [norm(n.test) for n in ast.walk(lp[0]) if isinstance(n, ast.If)]
     ctx.ob('issubclass(cur_type, new_type)' in tests and 'issubclass(new_type, cur_type)' in tests, fu,
            'both directions of the subclass relation are handled: %s' % tests)
